@@ -9,9 +9,9 @@ plan('C14',
           'x stop(true) issued before, during or after the clients x destruction x further connects afterwards, with seeded jitter at the accept-loop / handler-count / thread hooks; '
           'judged by an offline checker over the totally ordered event log; distinct = hash of the hook-event order and of the event log prefix',
      jobs=[
-         Job(H, 'hist', 'asan', quick=48, thorough=600, shards=(16, 16), batch=4, case_timeout=120),
-         Job(H, 'hist', 'tsan', quick=32, thorough=300, shards=(16, 16), batch=2, case_timeout=120, leakcheck=False),
-         Job(H, 'hist', 'plain', quick=48, thorough=600, shards=(16, 16), batch=4, case_timeout=120),
+         Job(H, 'hist', 'asan', quick=48, thorough=400, shards=(16, 16), batch=4, case_timeout=120),
+         Job(H, 'hist', 'tsan', quick=32, thorough=200, shards=(16, 16), batch=2, case_timeout=120, leakcheck=False),
+         Job(H, 'hist', 'plain', quick=48, thorough=400, shards=(16, 16), batch=4, case_timeout=120),
      ],
      assumptions=COMMON_ASSUME + ['accept events are taken from the ASL_VERIF hook placed right after accept() in the accept loop; serve events from the harness subclass; all events pass through one mutex, which gives the total order the checker uses',
                                   'clients are raw POSIX sockets in harness threads; a client that got its echo must see EOF within 30 s of wall-clock time (the library closes the socket in the same thread right after serve() returns)',
